@@ -5,7 +5,7 @@
     penalty vectors) returns exactly the sum over rankings and unordered pairs of the penalty of the
     definition, or refuses exactly when the candidate lacks a dataset element.  The model is tied to
     the Python code by the correspondence check of harness/check_C01.py. *)
-From Corankco Require Import Prelude Scheme Rank KemenySpec KemenyMerge KemenyImpl KemenyProof KemenyCount.
+From Corankco Require Import Prelude Scheme Rank KemenySpec KemenyMerge KemenyImpl KemenyProof KemenyCount KemenyAlgebra.
 From Coq Require Import Sorting.Sorted.
 Local Open Scope Z_scope.
 
@@ -32,6 +32,15 @@ Print Assumptions C01_merge_partial.
 Theorem C01_spec_nonneg : forall s D c, nonneg s -> 0 <= kemeny_spec s D c.
 Proof. exact kemeny_spec_nonneg. Qed.
 Print Assumptions C01_spec_nonneg.
+
+(** structure of the definition the implementation is proved equal to: a sum over the rankings of the dataset - additive over
+    concatenated datasets, independent of the order of the rankings, the distance to the ranking itself for a single ranking *)
+Theorem C01_spec_additive : forall s D1 D2 c, kemeny_spec s (D1 ++ D2) c = kemeny_spec s D1 c + kemeny_spec s D2 c.
+Proof. exact kemeny_spec_app. Qed.
+Print Assumptions C01_spec_additive.
+Theorem C01_spec_order_of_rankings : forall s D D' c, Permutation D D' -> kemeny_spec s D c = kemeny_spec s D' c.
+Proof. exact kemeny_spec_perm. Qed.
+Print Assumptions C01_spec_order_of_rankings.
 
 (** the main statement *)
 Theorem C01_kemeny_impl_correct : forall s D c,
